@@ -709,7 +709,20 @@ func init() {
 			}
 			return
 		}
-		if len(sl) > 5 {
+		if len(sl) <= 4 {
+			// few elements: decide each comparison (forking) so that the elements stay
+			// the original terms (cheap map lookups and equalities afterwards)
+			for i := 1; i < len(sl); i++ {
+				for j := i; j > 0; j-- {
+					if !e.decide(strLt(T(sl[j]), T(sl[j-1]))) {
+						break
+					}
+					sl[j], sl[j-1] = sl[j-1], sl[j]
+				}
+			}
+			return
+		}
+		if len(sl) > 6 {
 			e.abort("bound", "sort of %d symbolic strings", len(sl))
 		}
 		// compare-exchange network (bubble), no forking
